@@ -285,7 +285,8 @@ Lemma newfb_regions st w h bpp seed :
                    (cUseNewFB c = false -> cPW c = w /\ cPH c = h))
          (sClients (newfb_state st w h bpp seed)).
 Proof.
-  unfold newfb_state. cbn [sClients]. apply Forall_map. apply Forall_forall. intros c _.
+  unfold newfb_state. destruct (rescale_clients _ _ _ _ _ _) as [chain rcl].
+  cbn [sClients]. apply Forall_map. apply Forall_forall. intros c _.
   unfold newfb_client. destruct c; csimpl. destruct cUseNewFB; csimpl.
   - repeat split; auto; discriminate.
   - unfold client_resize. csimpl. destruct ((cPW =? w) && (cPH =? h)) eqn:E; csimpl; repeat split; auto; try discriminate; lia.
@@ -306,7 +307,16 @@ Lemma newfb_content st w h bpp seed x y :
   0 <= x < w -> 0 <= y < h ->
   fbf (newfb_state st w h bpp seed) x y = draw_value bpp seed x y /\
   sFBid (newfb_state st w h bpp seed) = sFBid st + 1.
-Proof. intros Hx Hy. split; [|reflexivity]. unfold fbf, newfb_state. cbn [sFB]. apply pic_get_build; assumption. Qed.
+Proof.
+  intros Hx Hy. unfold fbf, newfb_state. destruct (rescale_clients _ _ _ _ _ _) as [chain rcl].
+  split; [|reflexivity]. cbn [sFB]. apply pic_get_build; assumption.
+Qed.
+
+Lemma newfb_state_fields st w h bpp seed :
+  sW (newfb_state st w h bpp seed) = w /\ sH (newfb_state st w h bpp seed) = h /\
+  sBpp (newfb_state st w h bpp seed) = bpp /\
+  xDefer (sExt (newfb_state st w h bpp seed)) = xDefer (sExt st).
+Proof. unfold newfb_state. destruct (rescale_clients _ _ _ _ _ _) as [chain rcl]. repeat split. Qed.
 
 (* what a client must hold follows the new depth *)
 Lemma newfb_translate st w h bpp seed c x y :
@@ -315,6 +325,7 @@ Lemma newfb_translate st w h bpp seed c x y :
   translate bpp (cBpp c) (draw_value bpp seed x y).
 Proof.
   intros Hx Hy. unfold fb_for. rewrite (proj1 (newfb_content st w h bpp seed x y Hx Hy)).
+  destruct (newfb_state_fields st w h bpp seed) as (_ & _ & -> & _).
   f_equal. unfold newfb_client, client_resize. destruct c; cbn.
   destruct cUseNewFB; cbn; [reflexivity|]. destruct ((cPW =? w) && (cPH =? h)); reflexivity.
 Qed.
@@ -335,17 +346,18 @@ Lemma size_first st w h bpp seed c :
     (cUseExt c = true -> cReqChange c2 = 0 /\ cLastErr c2 = 0).
 Proof.
   intros Hu Hsc st' c1. unfold c1, newfb_client. unfold cScaled in Hsc. destruct c; csimpl; subst. csimpl.
+  destruct (newfb_state_fields st w h bpp seed) as (FW & FH & _ & FD). fold st' in FW, FH, FD.
   unfold send_client, send_client_gen, scaled_guard, announced_size, cScaled. csimpl. rewrite Hsc.
-  cbn [andb sW sH st' newfb_state].
+  cbn [andb]. rewrite FW, FH.
   eexists. split; [reflexivity|]. split.
   - intros HR HD. unfold tick_client.
-    replace (xDefer (sExt st')) with 0 by (unfold st', newfb_state; cbn [sExt]; auto).
+    replace (xDefer (sExt st')) with 0 by (rewrite FD; auto).
     unfold scaled_guard, cScaled. csimpl. rewrite Hsc.
     assert (Hp : forall c0, UpdateDefs.cUseNewFB c0 = true -> UpdateDefs.cNewFBPending c0 = true -> pending st' c0 = true).
     { intros c0 Ha Hb. unfold pending. rewrite Ha, Hb. cbn [andb].
       apply orb_true_iff. left. apply orb_true_iff. left. apply orb_true_iff. right. reflexivity. }
     rewrite Hp by reflexivity. csimpl. rewrite HR. cbn [andb Z.eqb].
-    unfold send_client, send_client_gen, scaled_guard, announced_size, cScaled. csimpl. rewrite Hsc. reflexivity.
+    unfold send_client, send_client_gen, scaled_guard, announced_size, cScaled. csimpl. rewrite Hsc, FW, FH. reflexivity.
   - unfold client_resize. csimpl.
     destruct ((cPW =? w) && (cPH =? h)) eqn:E; csimpl; repeat split; try lia; destruct cUseExt; try reflexivity; discriminate.
 Qed.
@@ -409,32 +421,21 @@ Proof.
   rewrite HM, create_rect_mem. unfold rect_mem, inS in *. lia.
 Qed.
 
-(* ------------------------------------------------------------------ scaled screens (F12) *)
-(* rfbNewFramebuffer leaves the scaledScreenNext chain and the clients' scaledScreen alone *)
-Lemma newfb_keeps_scaled st w h bpp seed :
-  xChain (sExt (newfb_state st w h bpp seed)) = xChain (sExt st) /\
-  map cScaled (sClients (newfb_state st w h bpp seed)) = map cScaled (sClients st).
-Proof.
-  unfold newfb_state. cbn [sExt sClients]. split; [reflexivity|]. rewrite map_map. apply map_ext.
-  intros c. unfold newfb_client, client_resize, cScaled.
-  destruct c; csimpl. destruct cUseNewFB; csimpl; [reflexivity|].
-  destruct ((cPW =? w) && (cPH =? h)); reflexivity.
-Qed.
-
-(* FULL STATEMENT (refuted): after rfbNewFramebuffer a client that asked for scale n is told the size
-   (W'/n, H'/n) of the NEW framebuffer.  Witness: 12x8 screen, SetScale 2 (told 6x4), new
-   framebuffer 24x16: the client is told 6x4 again (and the chain still holds the 6x4 copy of the
-   old framebuffer) instead of 12x8. *)
+(* ------------------------------------------------------------------ scaled screens (F12, fixed) *)
+(* rfbNewFramebuffer discards the scaled copies of the old framebuffer and gives every scaled client a
+   scaled screen of the new one (factor recovered from the old sizes).  The former witness of F12:
+   12x8 screen, SetScale 2 (told 6x4), new framebuffer 24x16: the client is now told 12x8 and the chain
+   holds exactly the 12x8 copy of the new framebuffer. *)
 Definition f12_ops : list op :=
   [OpSetCursor None; OpAddClient; OpSetEncodings 0 false true true false; OpSetScale 0 2; OpSend 0;
    OpNewFB 24 16 4 7].
 
-Lemma scaled_stale_after_newfb :
+Lemma scaled_follows_newfb :
   exists st c c', run (init_state 12 8 4) f12_ops = Some st /\ Inv st /\
     nth_error (sClients st) 0 = Some c /\ sW st = 24 /\ sH st = 16 /\
-    cScaled c = Some (6, 4) /\ xChain (sExt st) = [(6, 4)] /\
-    send_client st c = Some (c', Some (1, [WNewFB 6 4])) /\
-    (6, 4) <> (Z.quot (sW st) 2, Z.quot (sH st) 2).
+    cScaled c = Some (12, 8) /\ xChain (sExt st) = [(12, 8)] /\
+    send_client st c = Some (c', Some (1, [WNewFB 12 8])) /\
+    (12, 8) = (Z.quot (sW st) 2, Z.quot (sH st) 2).
 Proof.
   destruct (run (init_state 12 8 4) f12_ops) as [st|] eqn:E; [|vm_compute in E; discriminate].
   assert (HI : Inv st).
@@ -447,5 +448,6 @@ Proof.
   vm_compute in E. inversion E; subst. clear E.
   eexists. eexists. eexists. split; [reflexivity|]. split; [exact HI|].
   split; [reflexivity|]. split; [reflexivity|]. split; [reflexivity|]. split; [reflexivity|].
-  split; [reflexivity|]. split; [vm_compute; reflexivity|]. vm_compute. discriminate.
+  split; [reflexivity|]. split; [vm_compute; reflexivity|]. vm_compute. reflexivity.
 Qed.
+
